@@ -55,4 +55,35 @@ let run (ws : string list) : string =
         | Random.NotModelled -> "NM"
       end) (split_on ',' calls) in
     String.concat "," out
+  | ["pct"; seed; depth; iters; calls] ->
+    (* debug build of the harness: dbg = true *)
+    let fuel = nat_of_int 10000 in
+    (match Pct.pct_new_from_seed (n_of_string seed) (n_of_string depth) (n_of_string iters) with
+     | Random.Done p0 ->
+       let p = ref p0 in
+       let dead = ref false in
+       let out = ref [] in
+       Stdlib.List.iter (fun c ->
+         if not !dead then begin
+           let fail s = dead := true; out := s :: !out in
+           if c = "E" then
+             (match Pct.pct_new_execution true fuel !p with
+              | Random.Done None -> out := "eN" :: !out
+              | Random.Done (Some (s, p')) -> p := p'; out := ("e" ^ string_of_n s) :: !out
+              | Random.Panic -> fail "P" | Random.OutOfFuel -> fail "FUEL" | Random.NotModelled -> fail "NM")
+           else if c = "U" then
+             (let (x, p') = Pct.pct_next_u64 !p in p := p'; out := ("u" ^ string_of_n x) :: !out)
+           else begin
+             match String.split_on_char ':' c with
+             | [_; ids; cur; y] ->
+               let ids = Stdlib.List.map n_of_string (String.split_on_char '.' ids) in
+               let cur = if cur = "-" then None else Some (n_of_string cur) in
+               (match Pct.pct_next_task true fuel !p ids cur (y = "1") with
+                | Random.Done (t, p') -> p := p'; out := ("t" ^ string_of_n t) :: !out
+                | Random.Panic -> fail "P" | Random.OutOfFuel -> fail "FUEL" | Random.NotModelled -> fail "NM")
+             | _ -> failwith "pct: bad call"
+           end
+         end) (split_on ',' calls);
+       String.concat "," (Stdlib.List.rev !out)
+     | _ -> "P")
   | _ -> failwith "sched: bad case"
